@@ -59,3 +59,9 @@ PROPS['C12'] = dict(
   text='Decides the constant identities that make coverage an exact sample count (N_X*N_Y == 2^n-1, steps add to one pixel, sample positions inside the pixel, RENDER_SAMPLES_X end points) for depths 1/4/8; that each of the six rasteriser instantiations clamps lx at 0 and rx at exactly bits.width and uses unclamped coordinates nowhere in a row address; '
        'that the direct-rasterise shortcut requires ADD, opaque source, equal format and an unclipped destination; that zero_src_has_no_effect is TRUE only where Fb(sa=0)=1; that the trapezoid bounding box folds every end point. Edge stepping and sample_ceil/floor arithmetic are not decided.',
   note='Trusted: clang constant folding of the macros; Render factor table.')
+PROPS['C17'] = dict(
+  technique='static analysis: guard completeness of the capacity test over computed occupancy counters (T-GRD), state/counter pairing in the table mutators (T-PAIR), bounded-index check of every glyphs[] access, constant witnesses',
+  text='Recognises the table mutators by role (the function storing a glyph, the one storing the tombstone constant, the one clearing all slots), computes the occupancy counters from them, and decides: the test that dominates insertion bounds the sum of all occupancy counters strictly below HASH_SIZE-1 (termination of every probe loop); '
+       'each slot-state change moves the matching counter, tombstone reuse decrements exactly under the tombstone comparison, clearing resets both and visits HASH_SIZE slots, every removal is followed by the release on all paths; every index into glyphs[] is masked or loop-bounded; HASH_SIZE is a power of two with room for the high-water mark; insertion copies the image and requires a frozen cache. '
+       'Holds for every history because it is a property of each mutator\'s paths.',
+  note='Trusted: clang-14 IR = built program. F3 (capacity test ignored tombstones and allowed a full table) was repaired in /repo. Not decided: LRU order, glyph drawing equivalence.')
